@@ -188,6 +188,12 @@ def run(ctx):
     # the deserializer walks inside the Coq model: every case above against TextDeTape / TextDeStream
     walk_model(ctx, cases + fcases)
 
+    # >>> a_c02 (wave 4): the grammar beyond the core on the real code, against the extracted TextDeSpec2.spec_value2
+    # (object tails / "remainder", `{}` and arrays into maps / structs, headers, parameter blocks, key-value arrays)
+    from props import C02_ext
+    C02_ext.run(ctx)
+    # <<< a_c02
+
     # scalar level: extracted Serde.text_scalar (typed hints with fall-back) against the real slice path
     from props import descalar
     ctx.correspond("scalar-hints", descalar.text_cases(ctx, ctx.scale(300, 3000)), nontrivial=nt)
